@@ -119,6 +119,12 @@ func c18Accumulate(c *Ctx, fd *ast.FuncDecl, name string, op token.Token, ident 
 		return
 	}
 	v := c.view(fd)
+	if intFam {
+		// integer addition and multiplication are commutative and associative (wrap-around included): any order of the visit will do
+		v2 := *v
+		v2.anyOrder = true
+		paths = v2.normalizePaths(paths)
+	}
 	p, loop, msg := singleLoopPath(paths)
 	if msg == "no loop" && len(paths) == 1 && c18AccumulateByFold(c, fd, name, op, ident, intFam, paths[0], v, lob) {
 		return
@@ -251,9 +257,19 @@ func c18AccumulateByFold(c *Ctx, fd *ast.FuncDecl, name string, op token.Token, 
 	if fold.Recv == nil || !(v.isSelf(fold.Recv) || v.isRecv(fold.Recv)) || len(fold.Args) != 2 || fold.Fun.Name() != wantReduce {
 		return false
 	}
-	lit, ok := fold.Args[1].(TLit)
-	fl, isFl := lit.Node.(*ast.FuncLit)
-	if !ok || !isFl {
+	var fl *ast.FuncLit
+	switch a := fold.Args[1].(type) {
+	case TLit:
+		fl, _ = a.Node.(*ast.FuncLit)
+	case TFunc:
+		// a declared private function of the package used as the reducer
+		if a.Fun != nil && a.Fun.Pkg() == c.Types {
+			if d := c.DeclOf(a.Fun); d != nil && d.Body != nil && d.Recv == nil {
+				fl = &ast.FuncLit{Type: d.Type, Body: d.Body}
+			}
+		}
+	}
+	if fl == nil {
 		return false
 	}
 	var ps []types.Object
